@@ -17,6 +17,8 @@ pub enum RefMode {
     ImplicitAll,
     /// per row / per cell random mixture
     Mixed,
+    /// rows implicit where the cursor rule allows, every cell explicit
+    ImplicitRows,
 }
 
 #[derive(Clone, Copy, Debug, PartialEq, Eq)]
@@ -120,7 +122,7 @@ impl XlsxChoices {
             forms.push(*rng.pick(&ALL_FORMS));
         }
         XlsxChoices {
-            refs: *rng.pick(&[RefMode::Explicit, RefMode::ImplicitCells, RefMode::ImplicitAll, RefMode::Mixed]),
+            refs: *rng.pick(&[RefMode::Explicit, RefMode::ImplicitCells, RefMode::ImplicitAll, RefMode::Mixed, RefMode::ImplicitRows]),
             dim: *rng.pick(&[DimMode::Absent, DimMode::Exact, DimMode::TooSmall, DimMode::TooLarge, DimMode::Understated]),
             prefix: if rng.chance(1, 3) { rng.pick(&["x", "ss", "main"]).to_string() } else { String::new() },
             rel_prefix: rng.pick(&["r", "r", "rel", "d3p1", "relationships"]).to_string(),
@@ -493,17 +495,22 @@ impl<'a> Enc<'a> {
         }
         let mut row_cursor: u32 = 0; // the row an `r`-less <row> would get
         let shuffle = self.ch.rows_shuffled && sh.shared.is_empty();
+        let no_fillers = self.rng.bool();
         let mut row_xml: Vec<String> = vec![];
         let outer = std::mem::take(&mut s);
         for (r, cells) in rows {
             let implicit_row_wanted = !shuffle
                 && match self.ch.refs {
-                    RefMode::ImplicitAll => true,
+                    RefMode::ImplicitAll | RefMode::ImplicitRows => true,
                     RefMode::Mixed => self.rng.bool(),
                     _ => false,
                 };
             let mut with_row_r = true;
-            if implicit_row_wanted && r >= row_cursor && r - row_cursor <= 12 {
+            if implicit_row_wanted && self.ch.refs == RefMode::ImplicitRows && no_fillers {
+                // every cell carries its reference, so the row needs neither `r` nor filler rows
+                with_row_r = false;
+                self.count("implicit_row_ref_without_fillers");
+            } else if implicit_row_wanted && r >= row_cursor && r - row_cursor <= 12 {
                 // filler rows bring the cursor to r
                 for _ in row_cursor..r {
                     s.push_str(&format!("{}<{}/>", self.nl(), self.q("row")));
@@ -529,7 +536,7 @@ impl<'a> Enc<'a> {
                     && match self.ch.refs {
                         RefMode::ImplicitCells | RefMode::ImplicitAll => true,
                         RefMode::Mixed => self.rng.bool(),
-                        RefMode::Explicit => false,
+                        RefMode::Explicit | RefMode::ImplicitRows => false,
                     };
                 // an r-less cell takes (row cursor of the reader, previous column + 1): only legal
                 // here when the row itself is positioned by the cursor or its r equals the reader's
@@ -565,6 +572,12 @@ impl<'a> Enc<'a> {
         s.push_str(&format!("{}</{}>", self.nl(), self.q("sheetData")));
         if self.ch.extras {
             s.push_str(&format!("<{} sheet=\"1\" objects=\"1\"/>", self.q("sheetProtection")));
+            // a custom view (it precedes mergeCells in the schema) with its own page settings:
+            // elements of the same names also exist at the top level, after mergeCells
+            s.push_str(&format!(
+                "<{0}><{1} guid=\"{{8C8F1A6D-1B2C-4D3E-9F10-112233445566}}\" scale=\"90\"><{2} left=\"0.7\" right=\"0.7\" top=\"0.75\" bottom=\"0.75\" header=\"0.3\" footer=\"0.3\"/><{3} orientation=\"landscape\"/><{4}><{5}>&amp;C custom</{5}></{4}></{1}></{0}>",
+                self.q("customSheetViews"), self.q("customSheetView"), self.q("pageMargins"), self.q("pageSetup"), self.q("headerFooter"), self.q("oddHeader")
+            ));
         }
         if !sh.merges.is_empty() {
             s.push_str(&format!("{}<{} count=\"{}\">", self.nl(), self.q("mergeCells"), sh.merges.len()));
@@ -604,6 +617,10 @@ pub fn table_xml(t: &MTable, id: usize) -> String {
     }
     if let Some(n) = t.totals_rows {
         s.push_str(&format!(" totalsRowCount=\"{}\"", n));
+    }
+    if t.totals_rows.is_none() && t.name.len() % 2 == 0 {
+        // "a totals row was shown at some time": says nothing about a totals row existing now
+        s.push_str(" totalsRowShown=\"1\"");
     }
     if t.name.ends_with("Ins") {
         // a table showing its (empty) insert row
